@@ -73,3 +73,140 @@ def pairs_from_neighbor_lists(arr, sizes):
             directed.add((i, j))
             pairs.add((min(i, j), max(i, j)))
     return pairs, directed
+
+
+# ---------------------------------------------------------------------------------------------
+# "is this edge set the edge set of a triangulation of the points?"  (used when the Delaunay triangulation is
+# not unique, e.g. exact lattices: any valid choice of cell diagonals is acceptable, a missing diagonal is not)
+# ---------------------------------------------------------------------------------------------
+def _normalised(points):
+    p = np.asarray(points, dtype=float)
+    p = p - p.mean(axis=0)
+    ext = np.abs(p).max()
+    return p / ext if ext > 0 else p
+
+
+def _orient(a, b, c):
+    return (b[..., 0] - a[..., 0]) * (c[..., 1] - a[..., 1]) - (b[..., 1] - a[..., 1]) * (c[..., 0] - a[..., 0])
+
+
+def hull_boundary(points, band=BAND):
+    """Indices of the points on the boundary of the convex hull (points in the interior of a hull edge included)
+    and a flag telling whether that set is decisive: the same whether orientations within the band (other than
+    exact zeros, which equal coordinates of a lattice row / column produce) count as collinear or not."""
+    p = _normalised(points)
+    n = len(p)
+    o = _orient(p[:, None, None, :], p[None, :, None, :], p[None, None, :, :])  # (n, n, n): orient(i, j, k)
+    same = (p[:, None, :] == p[None, :, :]).all(-1)
+    generous = ((o >= -band).all(axis=2) & ~same).any(axis=1)          # every point left of / on the line i -> j
+    strict = (((o > band) | (o == 0.0)).all(axis=2) & ~same).any(axis=1)
+    return [int(i) for i in np.nonzero(generous)[0]], bool((generous == strict).all())
+
+
+def hull_area(points):
+    """Area of the convex hull by Andrew's monotone chain + shoelace, in the units of `points`."""
+    pts = sorted(set((float(a), float(b)) for a, b in np.asarray(points, dtype=float)))
+    if len(pts) < 3:
+        return 0.0
+
+    def half(seq):
+        out = []
+        for q in seq:
+            while len(out) >= 2 and ((out[-1][0] - out[-2][0]) * (q[1] - out[-2][1])
+                                     - (out[-1][1] - out[-2][1]) * (q[0] - out[-2][0])) <= 0:
+                out.pop()
+            out.append(q)
+        return out
+
+    lower, upper = half(pts), half(pts[::-1])
+    poly = lower[:-1] + upper[:-1]
+    s = 0.0
+    for k in range(len(poly)):
+        x0, y0 = poly[k]; x1, y1 = poly[(k + 1) % len(poly)]
+        s += x0 * y1 - x1 * y0
+    return abs(s) / 2.0
+
+
+def planar_defects(points, pairs, band=BAND):
+    """Returns (defects, undecided): human-readable defects that stop `pairs` from being a planar straight-line graph on
+    the points -- two edges crossing in their interiors (all four orientations beyond the band), or an edge running through
+    a third point that is *exactly* collinear with it (equal coordinates of a lattice row / column give exact zeros).  A
+    point within the band of an edge but not exactly on it may legitimately form a thin triangle with it: undecided."""
+    p = _normalised(points)
+    e = np.array(sorted(pairs), dtype=int).reshape(-1, 2)
+    out = []
+    if len(e) == 0:
+        return out, 0
+    a, b = p[e[:, 0]], p[e[:, 1]]
+    o = _orient(a[:, None, :], b[:, None, :], p[None, :, :])                    # (E, n)
+    t = ((p[None, :, :] - a[:, None, :]) * (b - a)[:, None, :]).sum(-1) / ((b - a) ** 2).sum(-1)[:, None]
+    between = (t > 1e-9) & (t < 1 - 1e-9)
+    between[np.arange(len(e))[:, None], e] = False
+    through = (o == 0.0) & between
+    undecided = int(((np.abs(o) <= band) & (o != 0.0) & between).sum())
+    for k, c in np.argwhere(through)[:3]:
+        out.append("edge (%d, %d) passes through vertex %d" % (e[k][0], e[k][1], c))
+    o1 = _orient(a[:, None, :], b[:, None, :], a[None, :, :]); o2 = _orient(a[:, None, :], b[:, None, :], b[None, :, :])
+    cross = (o1 * o2 < 0) & (np.abs(o1) > band) & (np.abs(o2) > band)
+    cross = cross & cross.T
+    share = (e[:, None, 0] == e[None, :, 0]) | (e[:, None, 0] == e[None, :, 1]) | \
+            (e[:, None, 1] == e[None, :, 0]) | (e[:, None, 1] == e[None, :, 1])
+    cross &= ~share
+    for k, m in np.argwhere(np.triu(cross))[:3]:
+        out.append("edges (%d, %d) and (%d, %d) cross" % (e[k][0], e[k][1], e[m][0], e[m][1]))
+    return out, undecided
+
+
+def triangulation_defects(points, pairs, band=BAND):
+    """Defects that stop `pairs` from being the edge set of a triangulation of all the points: not planar, or
+    (a planar straight-line graph on n points with h of them on the hull boundary is a triangulation iff it has
+    3n - 3 - h edges) the wrong number of edges.  Second value: number of comparisons left undecided because a
+    near-collinear (not exactly collinear) triple sits inside the tolerance band; the edge count is only demanded
+    when every collinearity involved is exact or clear."""
+    out, undecided = planar_defects(points, pairs, band)
+    boundary, decisive = hull_boundary(points, band)
+    if not decisive or undecided:
+        return out, undecided + (0 if decisive else 1)
+    n, h = len(points), len(boundary)
+    want = 3 * n - 3 - h
+    if len(pairs) != want:
+        out.append("%d edges, a triangulation of %d points with %d on the hull boundary has %d" % (len(pairs), n, h, want))
+    return out, 0
+
+
+def simplices_defects(points, simplices, band=BAND):
+    """Returns (defects, edge set, undecided).  Defects that stop `simplices` (m, 3) from tiling the convex hull of the
+    points: an exactly degenerate simplex, a point strictly inside (beyond the band) or exactly on an edge of a simplex,
+    total area different from the hull area (1e-9 relative).  Together with planarity of the edge set this makes the
+    simplices a triangulation.  Thin simplices / points within the band are undecided and counted."""
+    p = _normalised(points)
+    s = np.asarray(simplices, dtype=int).reshape(-1, 3)
+    out = []
+    edges = set()
+    for i, j, k in s:
+        for u, v in ((i, j), (i, k), (j, k)):
+            edges.add((int(min(u, v)), int(max(u, v))))
+    a, b, c = p[s[:, 0]], p[s[:, 1]], p[s[:, 2]]
+    area2 = _orient(a, b, c)
+    for k in np.nonzero(area2 == 0.0)[0][:3]:
+        out.append("simplex %s is degenerate" % (tuple(int(v) for v in s[k]),))
+    thin = (np.abs(area2) <= band)
+    undecided = int((thin & (area2 != 0.0)).sum())
+    sgn = np.sign(area2)[:, None]
+    l = np.stack([_orient(b[:, None, :], c[:, None, :], p[None, :, :]) * sgn,
+                  _orient(c[:, None, :], a[:, None, :], p[None, :, :]) * sgn,
+                  _orient(a[:, None, :], b[:, None, :], p[None, :, :]) * sgn], axis=-1)          # (m, n, 3)
+    own = np.zeros(l.shape[:2], dtype=bool)
+    own[np.arange(len(s))[:, None], s] = True
+    ok_tri = ~thin[:, None] & ~own
+    strictly = (l > band).all(-1)
+    exact_edge = ((l > band) | (l == 0.0)).all(-1) & (l == 0.0).any(-1)
+    inside = (strictly | exact_edge) & ok_tri
+    near = (l >= -band).all(-1) & ok_tri & ~inside
+    undecided += int(near.sum())
+    for k, q in np.argwhere(inside)[:3]:
+        out.append("vertex %d lies in simplex %s" % (q, tuple(int(v) for v in s[k])))
+    total, hull = float(np.abs(area2).sum() / 2.0), hull_area(p)
+    if abs(total - hull) > 1e-9 * hull:
+        out.append("simplex areas sum to %.12g, hull area %.12g (normalised units)" % (total, hull))
+    return out, edges, undecided
